@@ -86,6 +86,7 @@ type Verdict struct {
 	Seconds float64
 	File    string
 	Cross   string // result of the cross-check solver, if any
+	Abstracted int // kernel instances replaced under proved lemmas
 }
 
 type DischargeOpts struct {
@@ -134,8 +135,27 @@ func Discharge(vcs []*VC, extra func(*VC) []*smt.Term, o DischargeOpts) []Verdic
 			for _, r := range vc.Recs {
 				gets = append(gets, r.V)
 			}
-			be, to := pickBackend(o, as)
-			a := solvePortfolio(be, as, gets, to, o)
+			// kernel-lemma abstraction first; a model found under it is confirmed on the exact query
+			abs, nAbs := smt.AbstractKernels(as)
+			var a smt.Answer
+			final := as
+			if nAbs > 0 {
+				final = abs
+				v.Abstracted = nAbs
+				be, to := pickBackend(o, abs)
+				a = solvePortfolio(be, abs, nil, to, o)
+				if a.Res != smt.Unsat {
+					be, to = pickBackend(o, as)
+					b := solvePortfolio(be, as, gets, to, o)
+					b.Seconds += a.Seconds
+					a = b
+					v.Abstracted = 0
+					final = as
+				}
+			} else {
+				be, to := pickBackend(o, as)
+				a = solvePortfolio(be, as, gets, to, o)
+			}
 			v.Res, v.Solver, v.Seconds, v.File = a.Res, a.Solver, a.Seconds, a.File
 			if a.Res == smt.Error {
 				fmt.Fprintf(os.Stderr, "solver error on %s/%s: %s\n", vc.Harness, vc.Label, firstLines(a.Raw, 3))
@@ -149,10 +169,11 @@ func Discharge(vcs []*VC, extra func(*VC) []*smt.Term, o DischargeOpts) []Verdic
 			}
 			if o.CrossCheck && a.Res == smt.Unsat {
 				other := smt.Z3New
-				if be == smt.Z3New {
+				if strings.HasPrefix(a.Solver, "z3") {
 					other = smt.CVC5
 				}
-				b := smt.Solve(other, as, nil, to)
+				_, to := pickBackend(o, final)
+				b := smt.Solve(other, final, nil, to)
 				v.Cross = b.Res.String()
 			}
 			out[i] = v
